@@ -36,6 +36,10 @@ def _run(prop, repo, tier):
 
         cas.append(analyse_class(repo, by_name[n]))
     check_wire(prop, res, repo, cas)
+    # the formulas are compared relative to the accessor summaries; the summaries are contracts of the helpers
+    from ..contracts import check_all
+
+    check_all(prop, res, repo)
     res.universe = {"classes": GROUPS[prop]}
     return res, cas
 
